@@ -41,7 +41,7 @@ checks = [
     check("C14", "fault_enumeration",
           "Histories of successful and failing serializations on one SerializerConfig; the failure is injected at every serde-call index (five caller-failure kinds incl. abandoned sequences) and after every sink byte, for every attempt of the history (sampled above a cap), plus multi-failure histories; after the failing attempt and at the end two probes must be byte-identical to a fresh configuration's output, successful attempts too; no panic with debug assertions live.",
           "DESIGN.md §4 C14",
-          "Harness built with debug-assertions and overflow-checks on; values conform to the schema so the only failures are injected ones.",
+          "Main lane built with debug-assertions and overflow-checks on, second lane built as the crate ships (both off); values conform to the schema so the only failures are injected ones.",
           "deterministic simulation: enumeration of caller-failure and sink-fault points over seeded serialization histories, fresh configuration as reference"),
     check("C15", "exploration",
           "Seeded writer histories with failing values (failure at an arbitrary serde call / depth), pushes, flushes, into_inner / drop x codec x approx_block_size; after EVERY API call that returned, the bytes accepted by the sink (= what survives a crash there) are judged by the reference container parser and datum decoder: complete valid file, values a prefix of the accepted ones, all of them after finish_block / into_inner / drop, failed values contribute nothing, snapshots monotone.",
